@@ -339,7 +339,9 @@ fn big_strategy() -> BoxedStrategy<BigCase> {
 fn big_dims(c: &BigCase) -> (usize, usize, usize) {
     const NS: [usize; 11] = [8, 9, 15, 16, 17, 31, 32, 33, 63, 64, 65];
     const ROWS: [usize; 12] = [255, 256, 257, 999, 1000, 1001, 1023, 1024, 1025, 9999, 10000, 10001];
-    (if c.wide { 35 } else { 17 }, NS[gen::idx(c.n_sel, NS.len())], ROWS[gen::idx(c.rows_sel, ROWS.len())])
+    // half of the cases: a sample count on or next to a power of two; the other half: any count from 2 to 70
+    let n = if c.n_sel % 2 == 0 { NS[gen::idx(c.n_sel, NS.len())] } else { 2 + gen::idx(c.n_sel, 69) };
+    (if c.wide { 35 } else { 17 }, n, ROWS[gen::idx(c.rows_sel, ROWS.len())])
 }
 
 fn check_big(c: &BigCase, ctx: &Ctx) -> Outcome {
@@ -399,7 +401,7 @@ fn check_big(c: &BigCase, ctx: &Ctx) -> Outcome {
     }
 }
 
-const BIG_RULE: &str = "generated: unambiguous tables of 8..65 samples (on and next to 8,16,32,64) x 255..10001 rows (on and next to 256, 1000, 1024, 10000; in a third of the cases every row variable and unfiltered, so that exactly that many rows are compared; constant, constant with gaps, one deviating sample at any column, two alleles split at a column, random with generated gap density), k=17 / k=35, written through the public API; min-freq selectors as in the inproc stage; half of the cases through ska distance with --threads in {1,2,3,4,8,16}. Oracle: every line == model (pairs in order, SNP count, mismatch proportion). Every case non-trivial (hundreds of pairs with SNPs and mismatches).";
+const BIG_RULE: &str = "generated: unambiguous tables of 2..70 samples (half of them on and next to 8,16,32,64) x 255..10001 rows (on and next to 256, 1000, 1024, 10000; in a third of the cases every row variable and unfiltered, so that exactly that many rows are compared; constant, constant with gaps, one deviating sample at any column, two alleles split at a column, random with generated gap density), k=17 / k=35, written through the public API; min-freq selectors as in the inproc stage; half of the cases through ska distance with --threads in {1,2,3,4,8,16}. Oracle: every line == model (pairs in order, SNP count, mismatch proportion). Every case non-trivial (hundreds of pairs with SNPs and mismatches).";
 
 fn stages(tier: Tier) -> Vec<Box<dyn Stage>> {
     vec![
